@@ -47,7 +47,7 @@ def gen_entries(rng, depth, conv):
                             "quoted": (not conv) and rng.random() < 0.3, "trailing_comment": (not conv) and rng.random() < 0.2})
         elif depth > 0:
             sub = rng.choice(["", "sub/", "sub/deeper/", "../"])
-            entries.append({"k": "incl", "flag": rng.choice(["-r", "--requirement"]), "rel": sub + "inc%d.txt" % rng.randrange(1000),
+            entries.append({"k": "incl", "flag": rng.choice(["-r", "--requirement"]), "rel": sub + "inc%d.txt" % rng.randrange(10 ** 12),
                             "entries": gen_entries(rng, depth - 1, conv)})
     return entries
 
